@@ -604,6 +604,8 @@ def strip_calls_bb(t):
 def term_str(t, depth=0):
     if not isinstance(t, tuple):
         return str(t)
+    if not t:
+        return '()'
     if depth > 8:
         return '…'
     h = t[0]
